@@ -100,10 +100,6 @@ func init() {
 		}
 		return Iface{T: types.NewPointer(eet), V: ee}
 	})
-	reg("os.WriteFile", func(m *Machine, fr *frame, a []Value) Value {
-		m.trace = append(m.trace, Event{Name: "os.WriteFile", Args: a})
-		return Iface{}
-	})
 	reg("syscall.Kill", func(m *Machine, fr *frame, a []Value) Value { return Iface{} })
 }
 
